@@ -3,6 +3,9 @@ import Pm.Signal
 open Pm Pm.Client Pm.Daemon
 open Pm.Dev2 (Dev Action Stmt Plug Arg ExecCtx PState PResult ActErr RxCall Oracle Env CS getArgs connectDev)
 
+/-- a string of decimal digits, one kernel answer per call -/
+def digits (s : String) : List Nat := s.toList.map fun c => c.toNat - 48
+
 partial def loop (h out : IO.FS.Stream) (w : W) : IO Unit := do
   let line ← h.getLine
   if line.isEmpty then return ()
@@ -13,6 +16,7 @@ partial def loop (h out : IO.FS.Stream) (w : W) : IO Unit := do
     let d : Dev := { plugs := [], scripts := fun _ => none, timeout := 0, acts := [], toBuf := [], fromBuf := [], xmStr := none,
                      xmOffs := [], xmResult := false, xmUsed := false, args := [], nextUid := 1, shortCircuitDelay := false, isPipe := kind == "1" }
     loop h out { w with devs := w.devs ++ [(parseHex nm, d)] }
+  | ["NA", n] => loop h out (updLastDev w fun d => { d with naddr := n.toNat! })
   | ["T", us] => loop h out (updLastDev w fun d => { d with timeout := us.toNat! })
   | ["PP", us] => loop h out (updLastDev w fun d => { d with pingPeriod := us.toNat! })
   | ["G", nm, nd] =>
@@ -27,14 +31,14 @@ partial def loop (h out : IO.FS.Stream) (w : W) : IO Unit := do
   | ["V", hex] => loop h out { w with cfg := { w.cfg with version := parseHex hex } }
   | ["X", pat, subj, ans] => loop h out { w with pendingX := w.pendingX ++ [{ pat := pat.toNat!, subject := parseHex subj, answer := parseOffs ans }] }
   | ["I", now, con, soe] =>
-    let (w, lines) := initialConnect w now.toNat! con.toNat! soe.toNat!
+    let (w, lines) := initialConnect w now.toNat! (digits con) (digits soe)
     for l in lines do out.putStrLn l
     for l in dumpLines w none do out.putStrLn l
     loop h out w
   | "P" :: now :: acc :: con :: soe :: envs0 =>
     let hup := envs0.find? (·.startsWith "H")
     let envs := envs0.filter (fun x => !x.startsWith "H" && !x.startsWith "W")
-    let p : PassIn := { now := now.toNat!, acc := acc.toNat!, con := con.toNat!, soe := soe.toNat!, envs := envs.map parseEnv }
+    let p : PassIn := { now := now.toNat!, acc := acc.toNat!, con := digits con, soe := digits soe, envs := envs.map parseEnv }
     let (w, lines) := match hup with
       | some h => hupPass w (h.drop 1).toNat! p
       | none => daemonPass w p
@@ -43,8 +47,8 @@ partial def loop (h out : IO.FS.Stream) (w : W) : IO Unit := do
   | "Q" :: rest =>
     -- a termination signal arrives while the daemon sleeps in `poll`, together with whatever the rest of the line makes ready
     let p : PassIn := match rest with
-      | now :: acc :: con :: soe :: envs => { now := now.toNat!, acc := acc.toNat!, con := con.toNat!, soe := soe.toNat!, envs := (envs.filter (fun x => !x.startsWith "H" && !x.startsWith "W")).map parseEnv }
-      | _ => { now := 0, acc := 0, con := 0, soe := 0, envs := [] }
+      | now :: acc :: con :: soe :: envs => { now := now.toNat!, acc := acc.toNat!, con := digits con, soe := digits soe, envs := (envs.filter (fun x => !x.startsWith "H" && !x.startsWith "W")).map parseEnv }
+      | _ => { now := 0, acc := 0, con := [0], soe := [0], envs := [] }
     for l in signalPass w p do out.putStrLn l
     out.putStrLn "O teardown"
     out.putStrLn "."
